@@ -7,7 +7,7 @@
    (recorded as known findings).  What does hold there: one interface inside the band is left alone.
    Roll-back and agreement of record and cloud after failures are judged on Reconcile histories only
    (IpamRun.pass_why, clauses 801-808): the level of this property is partial. *)
-From Coq Require Import ZArith List Bool.
+From Coq Require Import ZArith List Bool Lia.
 From TV Require Import IpamModel IpamProofs IpamLoop IpamLoopProofs.
 Import ListNotations.
 Local Open Scope Z_scope.
@@ -69,3 +69,14 @@ Theorem c08_one_interface_in_band_is_fixed_partial : forall c next id n,
   pass c (next, [mkLe id n 0 0 0 false]) = ((next, [mkLe id n 0 0 0 false]), []).
 Proof. exact one_interface_in_band_is_fixed. Qed.
 Print Assumptions c08_one_interface_in_band_is_fixed_partial.
+
+(* ... and a node whose pool sits on ONE interface converges from any filling of it: below the band one round refills to
+   min, above it one round marks the surplus and the next unassigns it, then every round is quiet.  Partial: IPv4 only,
+   per-interface limit within one batch (10), no address marked for deletion at the start. *)
+Theorem c08_one_interface_converges_partial : forall c next id,
+  l_dual c = false -> id <> 0 -> 0 <= l_min c <= l_max c -> l_min c <= l_per c <= l_batch ->
+  forall n, 1 <= n <= l_per c -> converges c (next, one id n 0).
+Proof. exact one_interface_converges. Qed.
+Print Assumptions c08_one_interface_converges_partial.
+Example c08_one_interface_instance : converges (mkLc false 6 2 4 2) (2, one 1 6 0).
+Proof. apply c08_one_interface_converges_partial; try reflexivity; try discriminate; unfold l_batch; cbn; lia. Qed.
